@@ -221,7 +221,7 @@ Proof.
   destruct (build_all_inv _ _ _ Hb) as [Hvar Hz].
   destruct (build_zones_spec _ _ _ _ _ _ _ Hz Hnd Hin) as [B [Hg Ha]].
   destruct (position_in _ _ Hdecl) as [vid P].
-  unfold select_enum, attempt. cbn [op_answered negb]. rewrite Hvar, P. rewrite select_some.
+  unfold select_enum, attempt. cbn [op_answered negb]. rewrite Hvar, P. rewrite select_some by reflexivity.
   eapply in_prune; [exact Hg|]. cbn [zone_included].
   unfold add_zone_values in Ha.
   destruct (add_rows_marks _ _ _ _ _ _ _ Ha Hv P) as [bs [Hn Hany]]. now rewrite Hn.
@@ -242,7 +242,7 @@ Proof.
   destruct (position_in _ _ Hdecl) as [vid P].
   destruct (position_in _ _ Hvd) as [j Pj].
   unfold select_enum, attempt. cbn [op_answered]. change zidx_enum_handles_neq with true. cbn [negb].
-  rewrite Hvar, P. rewrite select_some.
+  rewrite Hvar, P. rewrite select_some by reflexivity.
   eapply in_prune; [exact Hg|]. cbn [zone_included].
   unfold add_zone_values in Ha.
   destruct (add_rows_marks _ _ _ _ _ _ _ Ha Hv Pj) as [bs [Hn Hany]].
@@ -268,24 +268,30 @@ Qed.
 
 (** * What the faithful model gets wrong *)
 
-(** [!=] with a literal that is not a declared variant: the pruner answers [None], the
-    selector turns that into "no zones", but every row differs from the literal. *)
-Theorem enum_neq_undeclared_refuted :
-  exists variants zones ix zid vals lit all,
-    build_all variants zones = Some ix /\ NoDup (map fst zones) /\ In (zid, vals) zones /\
-    (forall v, In v vals -> In v variants) /\
-    (exists v, In v vals /\ row_matches ONeq v lit = true) /\
-    ~ In zid (select_enum (Some ix) all ONeq lit).
+(** [!=] with a literal that is NOT a declared variant (repaired by f801704): the pruner
+    answers [None] and the selector now falls back to every zone of the segment — every
+    stored row differs from such a literal.  (Was [enum_neq_undeclared_refuted].) *)
+Theorem enum_neq_undeclared_sound : forall ix variants lit all zid,
+  (match ix with Some x => e_variants x = variants | None => True end) ->
+  ~ In lit variants ->
+  In zid all ->
+  In zid (select_enum ix all ONeq lit).
 Proof.
-  exists [[97]; [98]], [(0, [[97]])].
-  eexists. exists 0, [[97]], [122; 122; 122], [0].
-  split; [vm_compute; reflexivity|].
-  split; [repeat constructor; cbn; tauto|].
-  split; [cbn; tauto|].
-  split; [intros v [<-|[]]; cbn; tauto|].
-  split; [exists [97]; split; [cbn; tauto|vm_compute; reflexivity]|].
-  vm_compute. tauto.
+  intros ix variants lit all zid Hv Hnd Hall. unfold select_enum, attempt.
+  cbn [op_answered]. change zidx_enum_handles_neq with true. cbn [negb].
+  destruct ix as [x|].
+  - destruct (position (e_variants x) lit) as [k|] eqn:P.
+    + exfalso. apply Hnd. rewrite <- Hv. apply position_nth in P. eapply nth_error_In; eassumption.
+    + change zidx_enum_undeclared_none with true. cbn iota.
+      rewrite select_none_op_all by reflexivity. assumption.
+  - rewrite select_none_op_all by reflexivity. assumption.
 Qed.
+
+(** the former witness of [EnumNeqUndeclaredLiteral] now passes *)
+Example enum_neq_undeclared_witness_passes :
+  exists ix, build_all [[97]; [98]] [(0, [[97]])] = Some ix /\
+             select_enum (Some ix) [0] ONeq [122; 122; 122] = [0].
+Proof. eexists. split; vm_compute; reflexivity. Qed.
 
 (** any operator other than [=] / [!=] on an enum column: [None], hence no zones *)
 Theorem enum_range_op_refuted :
@@ -325,40 +331,40 @@ Qed.
 
 (** * The known classes and the strongest true statement *)
 
-(** [EnumRangeOp]: an operator other than [=], [!=];
-    [EnumNeqUndeclaredLiteral]: [!=] with a literal that is not a declared variant. *)
-Definition declared (variants : list bytes) (lit : bytes) : bool :=
-  match position variants lit with Some _ => true | None => false end.
-Definition enum_known (variants : list bytes) (op : cmp_op) (lit : bytes) : bool :=
+(** [EnumRangeOp]: an operator other than [=], [!=] (the only class left after f801704). *)
+Definition enum_known (op : cmp_op) : bool :=
   match op with
-  | OEq => false
-  | ONeq => negb (declared variants lit)
+  | OEq | ONeq => false
   | _ => true
   end.
 
-Lemma declared_in : forall variants lit, declared variants lit = true -> In lit variants.
+Lemma not_in_position_none : forall vs v, ~ In v vs -> position vs v = None.
 Proof.
-  intros variants lit. unfold declared. destruct (position variants lit) as [k|] eqn:P; [|discriminate].
-  intros _. apply position_nth in P. eapply nth_error_In; eassumption.
+  intros vs v H. destruct (position vs v) as [k|] eqn:P; [|reflexivity].
+  exfalso. apply H. apply position_nth in P. eapply nth_error_In; eassumption.
 Qed.
 
 (** Every zone whose rows hold declared variants only (what STORE admits, C06) and that
-    holds a row satisfying the probe is a candidate, unless the probe is in a known class. *)
+    holds a row satisfying the probe is a candidate — for [=] and [!=] with ANY literal,
+    declared or not.  [all] is the list of all zones of the segment. *)
 Theorem enum_outside_known : forall variants zones ix zid vals op lit all,
-  enum_known variants op lit = false ->
+  enum_known op = false ->
   build_all variants zones = Some ix ->
   NoDup (map fst zones) ->
   In (zid, vals) zones ->
+  In zid all ->
   (forall v, In v vals -> In v variants) ->
   (exists v, In v vals /\ row_matches op v lit = true) ->
   In zid (select_enum (Some ix) all op lit).
 Proof.
-  intros variants zones ix zid vals op lit all Hk Hb Hnd Hin Hdecl [v [Hv Hm]].
+  intros variants zones ix zid vals op lit all Hk Hb Hnd Hin Hall Hdecl [v [Hv Hm]].
   destruct op; cbn [enum_known] in Hk; try discriminate.
   - assert (v = lit) by (now apply bytes_eqb_eq). subst v.
     eapply enum_eq_sound; eauto.
-  - apply negb_false_iff, declared_in in Hk.
-    eapply enum_neq_sound; eauto.
+  - destruct (in_dec (list_eq_dec N.eq_dec) lit variants) as [Hd|Hu].
+    + eapply enum_neq_sound; eauto.
+    + eapply enum_neq_undeclared_sound with (variants := variants); eauto.
+      destruct (build_all_inv _ _ _ Hb) as [Hvar _]. exact Hvar.
 Qed.
 
 (** * When the index can be built: every zone at most as long as the first, below 2^16 rows *)
